@@ -31,11 +31,11 @@ RULE = (
     "complemented; distinct = digest of the logged object (sequence, start, features) and operations."
 )
 STRATA = {
-    "annot_slices": (2500, 90000),
-    "aseq_small_all_slices": (2500, 90000),
-    "aseq_long_sampled": (2500, 90000),
-    "feature_index": (3000, 110000),
-    "rc_copy": (2500, 90000),
+    "annot_slices": (4000, 90000),
+    "aseq_small_all_slices": (4000, 70000),
+    "aseq_long_sampled": (4000, 70000),
+    "feature_index": (5000, 110000),
+    "rc_copy": (3000, 70000),
 }
 REQUIRED_ORACLES = [
     "coverage_vs_model", "cut_flags", "window", "slice_accepted", "source_unchanged",
@@ -375,6 +375,16 @@ def gen_mseq(rng, nlo, nhi, **kw):
 
 
 # =========================================================================== direct oracles
+_STATE_TICK = [0]
+
+
+def _state(ctx, obj):
+    """Abstract-state digest, sampled (1 in 4 quick, 1 in 32 thorough) to keep the evidence small."""
+    _STATE_TICK[0] += 1
+    if _STATE_TICK[0] % (4 if ctx.tier == "quick" else 32) == 0:
+        ctx.state(obj)
+
+
 def fmt(a, b):
     return "[%s:%s]" % ("" if a is None else a, "" if b is None else b)
 
@@ -654,8 +664,8 @@ def case_annot_slices(rng, ctx):
     for a, b in forms:
         res, exp_norm, cut = check_annot_slice(ctx, an, feats, a, b)
         anycut = anycut or cut
-        ctx.state(("A", n, None if a is None else a - s, None if b is None else b - s,
-                   sorted((l[0] - s, l[1] - s, l[2], l[3]) for k, q, locs in exp_norm for l in locs)))
+        _state(ctx, (("A", n, None if a is None else a - s, None if b is None else b - s,
+                   sorted((l[0] - s, l[1] - s, l[2], l[3]) for k, q, locs in exp_norm for l in locs))))
     # second level: slice a result again (pre-existing MISS flags made by biotite itself)
     if forms:
         a, b = forms[int(rng.integers(len(forms)))]
@@ -681,7 +691,7 @@ def case_aseq_small(rng, ctx):
     for a, b in forms:
         res, rm, cut = check_aseq_slice(ctx, aseq, m, a, b)
         anycut = anycut or cut
-        ctx.state(("S",) + state_of(m, a, b, rm.feats))
+        _state(ctx, (("S",) + state_of(m, a, b, rm.feats)))
         if len(rm.s) >= 2:
             results.append((res, rm))
     ctx.oracle("int_index")
@@ -713,7 +723,7 @@ def case_aseq_long(rng, ctx):
     for a, b in forms:
         res, rm, cut = check_aseq_slice(ctx, aseq, m, a, b)
         anycut = anycut or cut
-        ctx.state(("L",) + state_of(m, a, b, rm.feats))
+        _state(ctx, (("L",) + state_of(m, a, b, rm.feats)))
         if len(rm.s) >= 2:
             results.append((res, rm))
     # chains: slice of slice of slice
@@ -838,7 +848,7 @@ def case_feature_index(rng, ctx):
         dl = set(ft[2])
         if f is not None and (len(dl) > 1 or any(l[2] == R for l in dl)):
             nontrivial = True
-        ctx.state(("FI", len(m.s), sorted((l[0] - m.start, l[1] - m.start, l[2]) for l in dl)))
+        _state(ctx, (("FI", len(m.s), sorted((l[0] - m.start, l[1] - m.start, l[2]) for l in dl))))
     # assignment through features
     order = rng.permutation(len(cands))
     done = 0
@@ -996,7 +1006,7 @@ def case_rc_copy(rng, ctx):
         for ft in m.feats[:3]:
             check_copy_feature(ctx, ft)
     check_immutable_hash(ctx, rng, m.feats)
-    ctx.state(("RC", len(m.s), sorted((l[0] - m.start, l[1] - m.start, l[2], l[3]) for k, q, locs in m.feats for l in locs)))
+    _state(ctx, (("RC", len(m.s), sorted((l[0] - m.start, l[1] - m.start, l[2], l[3]) for k, q, locs in m.feats for l in locs))))
     ctx.mark_nontrivial(len(m.feats) > 0)
 
 
